@@ -27,6 +27,7 @@ import (
 	"github.com/Comcast/sheens/core"
 	"github.com/Comcast/sheens/crew"
 	stdints "github.com/Comcast/sheens/interpreters"
+	"github.com/Comcast/sheens/interpreters/noop"
 	"github.com/Comcast/sheens/sio"
 	jyaml "github.com/jsccast/yaml"
 	yaml2 "gopkg.in/yaml.v2"
@@ -864,6 +865,24 @@ func (g *G) c13Loaders(d *c13CDoc, syntaxOverride string) []*c13Loader {
 			compile: func() (*core.Spec, error) {
 				_, spec, err := sio.ResolveSpecSource(context.Background(), map[string]interface{}{"inline": m})
 				return spec, err
+			}})
+	}
+	// a dry run first: tools compile a specification with the no-op interpreters (tools.ReadAndRenderSpecPage does) before the
+	// host compiles it for real; what the dry run built must not survive into the real compilation
+	{
+		spec := d.goSpec(none, c13InlinePat)
+		ls = append(ls, &c13Loader{name: "go-inline-dryrun-first", force: true, ints: std,
+			load: func() (*core.Spec, error) { return d.goSpec(none, c13InlinePat), nil },
+			compile: func() (*core.Spec, error) {
+				noopInts := noop.NewInterpreters()
+				noopInts.I.Silent = true
+				if err := spec.Compile(context.Background(), noopInts, true); err != nil {
+					return nil, err
+				}
+				if err := spec.Compile(context.Background(), std, true); err != nil {
+					return nil, err
+				}
+				return spec, nil
 			}})
 	}
 	// hosts that know no interpreter, or only another one: compiled last, after the same sources compiled fine above
